@@ -803,8 +803,8 @@ def run(ctx, replay=None):
 
     # ---------------- sequences ----------------------------------------------------------------
     if replay is None:
-        jobs = [("single", gen_seq_spec(rng), None) for _ in range(ctx.n(360, 5000))]
-        for _ in range(ctx.n(50, 600)):
+        jobs = [("single", gen_seq_spec(rng), None) for _ in range(ctx.n(300, 5000))]
+        for _ in range(ctx.n(40, 600)):
             # interleaved twin experiment: two independent schedulers (own seeds, modes, rung systems) alive at once,
             # several brackets, both numbering their trials 0, 1, 2, ...
             tw = [gen_seq_spec(rng), gen_seq_spec(rng)]
